@@ -81,7 +81,20 @@ func ruleP13Translate(p *Prog, r *Report) {
 		return
 	}
 	var qry *ssa.Alloc
-	if u, ok := strip(fc[0].Common().Args[1]).(*ssa.UnOp); ok && u.Op == token.MUL {
+	body := f // where the query is assembled: ApplyFilter itself, or a helper it calls for it
+	qv := fc[0].Common().Args[1]
+	if hc, isCall := plainDeref(qv).(*ssa.Call); isCall {
+		if h := rawStaticCallee(hc); h != nil && isHelper(h) && len(ht.sites[originFn(h)]) == 1 {
+			if rets := plainReturnsOf(originFn(h)); len(rets) == 1 && len(rets[0].Results) == 1 {
+				body = originFn(h)
+				ht.ctx[body] = hc
+				qv = rets[0].Results[0]
+			}
+		}
+	}
+	if u, ok := plainDeref(qv).(*ssa.UnOp); ok && u.Op == token.MUL {
+		qry = cellOf(u.X)
+	} else if u, ok := strip(qv).(*ssa.UnOp); ok && u.Op == token.MUL {
 		qry = cellOf(u.X)
 	}
 	if qry == nil {
@@ -95,10 +108,10 @@ func ruleP13Translate(p *Prog, r *Report) {
 	// the shortcut period: a local closure's result tested for nil
 	var shortcut ssa.Value
 	var shortcutFn *ssa.Function
-	eachInstr(f, func(in ssa.Instruction) {
+	eachInstr(body, func(in ssa.Instruction) {
 		if c, ok := in.(*ssa.Call); ok {
 			// a local closure, or the same selection as a helper function / method of the package
-			if g := staticCallee(c); g != nil && (g.Parent() == f || isHelper(g)) && typeNameOf(c.Type()) == "Period" {
+			if g := staticCallee(c); g != nil && (g.Parent() == body || isHelper(g)) && typeNameOf(c.Type()) == "Period" {
 				shortcut, shortcutFn = c, originFn(g)
 				if isHelper(g) {
 					ht.ctx[originFn(g)] = c
